@@ -427,12 +427,12 @@ error: {smsfe}
                     if expr.index_expression:
                         walker_args.append(expr.index_expression)
                 case SubroutineCall():
-                    subdef = expr.subroutine.get_declaration_by_option(False)
-                    if subdef:
-                        walker_args.append(subdef)
-                    subdef = expr.subroutine.get_declaration_by_option(True)
-                    if subdef:
-                        walker_args.append(subdef)
+                    # only walk declarations that have already been evaluated: evaluating one here
+                    # would allocate scratch slots (and cache a declaration) that a compilation
+                    # without source maps never creates, and so change the compiled program
+                    for subdef in expr.subroutine.declarations.option_map.values():
+                        if subdef:
+                            walker_args.append(subdef)
                 case UnaryExpr():
                     walker_args = [expr.arg]
                 case Int(), MethodSignature(), ScratchStackStore(), TxnaExpr():
